@@ -57,9 +57,18 @@ def harness(c, cfg):
     op = cfg["op"]
 
     # ---- valuation of the arbitrary INV pre-state
-    nlv0 = br.net_liquidation_value(False)
-    c.record("nlv0", nlv0)
-    if prop == "C01":
+    if cfg.get("novalue"):
+        # the operation follows a quote update directly, with no valuation / mark-to-market in
+        # between: the pre-state NLV is the closed form (proved equal to the valuation in the
+        # other configurations), the broker is not touched before the operation
+        nlv0 = oracle_nlv(cash0, legs)
+        c.record("nlv0", nlv0)
+    else:
+        nlv0 = br.net_liquidation_value(False)
+        c.record("nlv0", nlv0)
+    if cfg.get("novalue"):
+        pass
+    elif prop == "C01":
         c.prove_eq("C01:valuation=closed-form", nlv0, oracle_nlv(cash0, legs))
     else:
         _c05_after_valuation(c, br, legs, nlv0, "valuation")
@@ -154,6 +163,11 @@ def configs_for(prop, tier):
         add(op="mtm", kindA=kind, shapeA="flat")
     for spec, kind in (("ETF", "spot"), ("ES", "margined"), ("ZN", "margined")):
         add(op="trade", kindA=kind, shapeA="held", specA=spec)
+    # the same operations directly after a quote update (no valuation in between)
+    for kind in ("spot", "margined"):
+        for shape in ("flat", "long", "short"):
+            add(op="trade", kindA=kind, shapeA=shape, novalue=True)
+        add(op="quote", kindA=kind, shapeA="held", novalue=True)
     if tier == "thorough":
         for kind in ("spot", "margined"):
             for kb in ("spot", "margined"):
